@@ -15,6 +15,7 @@ import (
 //    batch call, all with one version, larger than every earlier commit version;
 //  * Commit != nil  => none of its writes reached the store.
 func VerifC04AtomicCommit() {
+	sym.FreeRun() // native replay: see c34Run
 	db := VerifOpenPipelineDB(2, true)
 	withClose := sym.Int("close_concurrently", 0, 1) == 1
 	keys := [][]string{{"a1", "b1"}, {"a2", "b2"}}
@@ -26,7 +27,7 @@ func VerifC04AtomicCommit() {
 	}
 	for t := 0; t < ntxn; t++ {
 		t := t
-		running++
+		sym.Ghost(func() { running++ })
 		sym.Go(func() {
 			errs[t] = db.Update(func(txn *Txn) error {
 				for _, k := range keys[t] {
@@ -36,16 +37,16 @@ func VerifC04AtomicCommit() {
 				}
 				return nil
 			})
-			running--
+			sym.Ghost(func() { running-- })
 		})
 	}
 	closed := false
 	if withClose {
-		running++
+		sym.Ghost(func() { running++ })
 		sym.Go(func() {
 			VerifClosePipeline(db)
 			closed = true
-			running--
+			sym.Ghost(func() { running-- })
 		})
 	}
 	sym.WaitUntil(func() bool { return running == 0 })
@@ -122,10 +123,10 @@ func VerifC04RejectedNeighbour() {
 		}
 		badErr = e
 	} else {
-		running = 1
+		sym.Ghost(func() { running = 1 })
 		sym.Go(func() {
 			commit()
-			running--
+			sym.Ghost(func() { running-- })
 		})
 		req, e := db.sendToWriteCh([]*kv.Entry{bad}, true)
 		if e == nil {
